@@ -61,8 +61,8 @@ var adapters = []*adapter{
 	{name: "synccommitteecontribution-best", kind: "best", invalid: []string{"nildata"}, maxQ: 5, dims: 1, mk: mkContribution, build: buildSCBest},
 	{name: "synccommitteecontribution-first", kind: "first", invalid: []string{"nildata"}, maxQ: 5, dims: 1, mk: mkContribution, build: buildSCFirst},
 	// nil Data crashes beaconblockproposal/best (C16 candidate), so "missing data" is a missing payload there.
-	{name: "beaconblockproposal-best", kind: "best", invalid: []string{"zerofee", "nopayload"}, maxQ: 4, dims: 2, mk: mkProposal, build: buildBPBest},
-	{name: "beaconblockproposal-first", kind: "first", invalid: []string{"nildata"}, maxQ: 4, dims: 2, mk: mkProposal, build: buildBPFirst},
+	{name: "beaconblockproposal-best", kind: "best", invalid: []string{"zerofee", "nopayload"}, maxQ: 4, dims: 3, mk: mkProposal, build: buildBPBest},
+	{name: "beaconblockproposal-first", kind: "first", invalid: []string{"nildata"}, maxQ: 4, dims: 3, mk: mkProposal, build: buildBPFirst},
 	{name: "beaconblockroot-first", kind: "first", invalid: []string{"nildata"}, maxQ: 4, dims: 1, mk: mkRoot, build: buildBRFirst},
 	// nil Data crashes beaconblockroot/latest and /majority (C16 candidates): not generated.
 	{name: "beaconblockroot-latest", kind: "latest", maxQ: 4, dims: 1, mk: mkRoot, build: buildBRLatest},
@@ -181,10 +181,15 @@ func mkProposal(h *harness, c content) any {
 		Bellatrix:      &bellatrix.BeaconBlock{Slot: phase0.Slot(h.slot), ProposerIndex: 5, ParentRoot: headRoot(h.slot - 1), Body: body},
 	}
 	// one of the two rewards is higher, everything else equal
-	if c.Dim == 0 {
+	switch c.Dim {
+	case 0:
 		p.ConsensusValue = big.NewInt(40_000_000 + int64(c.Q)*1_000_000)
-	} else {
+	case 1:
 		p.ExecutionValue = big.NewInt(90_000_000 + int64(c.Q)*1_000_000)
+	default:
+		// tiny values, down to a proposal worth nothing at all (still a valid proposal)
+		p.ConsensusValue = big.NewInt(int64(c.Q))
+		p.ExecutionValue = big.NewInt(0)
 	}
 	switch c.Class {
 	case "zerofee":
